@@ -763,6 +763,8 @@ where
         // If not storing session state, clear QoS2 states and release publish-related packet IDs
         if !self.need_store {
             self.qos2_publish_handled.clear();
+            // the session ends with the connection: nothing is left to retransmit
+            self.store.clear();
 
             // Release packet IDs for PUBACK
             for packet_id in self.pid_puback.drain() {
